@@ -4,6 +4,13 @@
 // printers.  One stdin line = one case (the i-th line runs cases[i]); one result line per case.
 // Canonical output: values as s-expressions `(r f1 f2 ..)`, maps `(m k v ..)` sorted by key or
 // `nil`, panics as `panic:<class>`; no addresses (pointer identity is printed as same:/diff:).
+//
+// An optic that addresses memory outside its focus (wrong offset, wrong type) must end up as a
+// wrong result LINE of its own case, not as a dead harness: memory faults are turned into panics
+// (debug.SetPanicOnFault, caught per step), atoms read through such an optic are printed
+// defensively (length guard, non-printable bytes escaped: one case = one line of valid UTF-8), the
+// output is flushed per case, and `harness.bin <k>` starts at cases[k] so that the check can step
+// over a case that killed the process (fatal runtime errors cannot be recovered).
 package main
 
 import (
@@ -12,6 +19,7 @@ import (
 	"encoding/hex"
 	"fmt"
 	"os"
+	"runtime/debug"
 	"sort"
 	"strconv"
 	"strings"
@@ -23,9 +31,38 @@ type Ints interface {
 
 func aInt[T Ints](v T) string { return strconv.FormatInt(int64(v), 10) }
 
-func aStr[T ~string](v T) string { return `"` + string(v) + `"` }
+// wildLen: no generated value is longer than a few bytes; a longer one was read through a
+// misplaced optic (its data pointer is as unreliable as its length: do not touch the bytes).
+const wildLen = 1 << 12
 
-func aBytes[T ~[]byte](v T) string { return "x" + hex.EncodeToString([]byte(v)) }
+// plain: bytes printed as they are (everything the generators produce); the rest is escaped.
+func plain(c byte) bool {
+	return c > 0x20 && c <= 0x7e && c != '"' && c != '\\' && c != '(' && c != ')' && c != ';'
+}
+
+func aStr[T ~string](v T) string {
+	if len(v) > wildLen || len(v) < 0 {
+		return "wild:strlen=" + strconv.Itoa(len(v))
+	}
+	var sb strings.Builder
+	sb.WriteString(`"`)
+	for i := 0; i < len(v); i++ {
+		if c := v[i]; plain(c) {
+			sb.WriteByte(c)
+		} else {
+			fmt.Fprintf(&sb, "\\x%02x", c)
+		}
+	}
+	sb.WriteString(`"`)
+	return sb.String()
+}
+
+func aBytes[T ~[]byte](v T) string {
+	if len(v) > wildLen || len(v) < 0 {
+		return "wild:byteslen=" + strconv.Itoa(len(v))
+	}
+	return "x" + hex.EncodeToString([]byte(v))
+}
 
 func aFloat[T ~float32 | ~float64](v T) string {
 	return strconv.FormatFloat(float64(v), 'g', -1, 64)
@@ -72,6 +109,8 @@ func classify(e any) string {
 		return "panic:nilptr"
 	case strings.Contains(msg, "index out of range"), strings.Contains(msg, "slice bounds out of range"):
 		return "panic:index"
+	case strings.Contains(msg, "unexpected fault address"):
+		return "panic:fault"
 	}
 	fmt.Fprintln(os.Stderr, "panic:", msg)
 	return "panic:other"
@@ -88,11 +127,17 @@ func try(f func() string) (out string) {
 }
 
 func main() {
+	debug.SetPanicOnFault(true)
 	in := bufio.NewScanner(os.Stdin)
 	in.Buffer(make([]byte, 1<<22), 1<<22)
 	out := bufio.NewWriter(os.Stdout)
 	defer out.Flush()
 	i := 0
+	if len(os.Args) > 1 { // first stdin line runs cases[k]
+		if k, err := strconv.Atoi(os.Args[1]); err == nil && k >= 0 {
+			i = k
+		}
+	}
 	for in.Scan() {
 		if strings.TrimSpace(in.Text()) == "" {
 			continue
@@ -102,6 +147,7 @@ func main() {
 		} else {
 			fmt.Fprintln(out, try(cases[i]))
 		}
+		out.Flush()
 		i++
 	}
 }
